@@ -67,7 +67,7 @@ def serializer_of(b, t):
     return None
 
 
-def run(rep, tier="quick", replay=None, evidence_dir=None):
+def run(rep, tier="quick", replay=None, evidence_dir=None, collect_only=False):
     prog = Program(factsmod.extract())
     for r, txt in (("C03.R1", "failed append rolls the pending buffer back"), ("C03.R2", "value counted exactly once after a successful encode"),
                    ("C03.R3", "flush order and resets"), ("C03.R4", "header once, before any block"), ("C03.R5", "drop/into_inner flush"),
@@ -332,6 +332,8 @@ def run(rep, tier="quick", replay=None, evidence_dir=None):
             rep.ob("C03.R7", "%s appends each item in the loop and flushes once after it" % b.path, ok, "", b.loc())
     rep.floor("C03.R7", "extend* functions", n_ext, 3)
 
+    if collect_only:
+        return rep
     rep.not_decided = ["that the values read back equal those appended for every history (needs C01 and offset arithmetic at run time)",
                        "behaviour after a sink failure in the middle of flush (the compressed buffer is kept; covered by C13 only as far as the error is reported)"]
     return common.finish(rep, level="other",
